@@ -65,12 +65,17 @@ fn run_scenario(
     let nref = pql.iter().map(|q| q.0).max().unwrap_or(0);
     let npt = pql.iter().map(|q| q.1).max().unwrap_or(0);
     // chopped variant: first reference queried at exactly one point
-    let chopped_ref: Option<usize> = if variant.starts_with("chopped") {
-        (1..=nref).find(|r| pql.iter().filter(|q| q.0 == *r).count() == 1)
+    // "twinN": the first TWO such references are chopped into the same N pieces (identical piece values, given to the
+    // verifier behind distinct references)
+    let singles: Vec<usize> = (1..=nref).filter(|r| pql.iter().filter(|q| q.0 == *r).count() == 1).collect();
+    let chopped_refs: Vec<usize> = if variant.starts_with("chopped") {
+        singles.iter().take(1).cloned().collect()
+    } else if variant.starts_with("twin") {
+        singles.iter().take(2).cloned().collect()
     } else {
-        None
+        vec![]
     };
-    let pieces_n: usize = variant.strip_prefix("chopped").and_then(|s| s.parse().ok()).unwrap_or(2);
+    let pieces_n: usize = variant.strip_prefix("chopped").or(variant.strip_prefix("twin")).and_then(|s| s.parse().ok()).unwrap_or(2);
     let points: Vec<F> = (0..=npt + 2).map(|_| F::random(&mut rng)).collect();
     let mut polys: Vec<Poly> = vec![];
     let mut piece_polys: Vec<Poly> = vec![];
@@ -84,11 +89,13 @@ fn run_scenario(
         if variant == "identical" && r == 2 {
             p = dom.coeff_from_vec(polys[0].to_vec());
         }
-        if Some(r) == chopped_ref {
+        if chopped_refs.contains(&r) {
             // P(X) = sum_i s^i h_i(X) with s = x^(n-1), x the (single) opening point
             let x = points[pql.iter().find(|q| q.0 == r).unwrap().1];
             let s = x.pow_vartime([n - 1]);
-            piece_polys = (0..pieces_n).map(|_| rand_poly(&dom, &mut rng, "rand")).collect();
+            if piece_polys.is_empty() {
+                piece_polys = (0..pieces_n).map(|_| rand_poly(&dom, &mut rng, "rand")).collect();
+            }
             let mut acc = vec![F::ZERO; n as usize];
             let mut sc = F::ONE;
             for h in piece_polys.iter() {
@@ -189,10 +196,13 @@ fn run_scenario(
             }
             _ => {}
         }
+        let rpieces_copy = rpieces.clone();
         let part_refs: Vec<&G1Projective> = rpieces.iter().collect();
+        let part_refs2: Vec<&G1Projective> = rpieces_copy.iter().collect();
         for (r, p, e) in vlist.iter() {
-            if Some(*r) == chopped_ref {
-                vq.push(VerifierQuery::from_parts(points[*p], CommitmentLabel::NoLabel, &part_refs, *e, n));
+            if chopped_refs.contains(r) {
+                let parts = if chopped_refs.first() == Some(r) { &part_refs } else { &part_refs2 };
+                vq.push(VerifierQuery::from_parts(points[*p], CommitmentLabel::NoLabel, parts, *e, n));
             } else {
                 let c = if *r == nref + 1 { &fresh_com } else { &rcoms[*r - 1] };
                 vq.push(VerifierQuery::new(points[*p], CommitmentLabel::NoLabel, c, *e));
